@@ -79,9 +79,11 @@ class NarwhalsMaterializer(FormulaMaterializer):
         if drop_rows:
             values = drop_nulls(values, indices=drop_rows)
         if spec.output == "sparse":
-            return spsparse.csc_matrix(
-                numpy.array(values).reshape((values.shape[0], 1))
-            )
+            array = numpy.array(values)
+            if array.dtype == numpy.float16:
+                # scipy.sparse has no half-precision support
+                array = array.astype(numpy.float32)
+            return spsparse.csc_matrix(array.reshape((values.shape[0], 1)))
         return values
 
     @override
